@@ -75,6 +75,9 @@ type Case struct {
 	// directory with a file in it and an empty directory that are none of fs_db's business (a mount point's
 	// lost+found, somebody's notes). fs_db must leave them alone and must not put content there.
 	Foreign bool `json:"foreign,omitempty"`
+	// ShareRoot (C05): the other databases of the process (op otherdb, Others) keep their contents under the
+	// first storage root of the database under test (their metadata directories are their own)
+	ShareRoot bool `json:"share_root,omitempty"`
 	// CallerMD: every context the caller passes already carries outgoing gRPC metadata of the application
 	CallerMD bool `json:"caller_md,omitempty"`
 	Others   int  `json:"others,omitempty"` // C05: other databases opened in the same process first
@@ -113,6 +116,9 @@ type World struct {
 
 	// statistics for non-triviality rules
 	Stats map[string]int
+	foreignIn []string // files planted inside content directories (op foreignin)
+	staleIDs  []string // gRPC: ids of transactions begun and ended on earlier incarnations of the server
+	probed    bool
 	// Obs, when non-nil, receives every observation (for metamorphic comparisons)
 	Obs             *[]string
 	noHook          bool
@@ -285,6 +291,7 @@ func (w *World) Reopen() error {
 		if !w.drainReaders("before the server is stopped", true) {
 			return errors.New(w.R.Fail)
 		}
+		w.probeTxID()
 		for _, h := range w.handles {
 			h.tx = nil
 		}
@@ -419,6 +426,12 @@ func (g ghostOps) Rollback(ctx context.Context) error {
 // ghostTx builds a transaction handle naming a transaction that never existed.
 func (w *World) ghostTx() fs_db.Tx {
 	id := fmt.Sprintf("deadbeef-0000-4000-8000-%012d", w.step)
+	if w.ext != nil && len(w.staleIDs) > 0 && w.step%2 == 0 {
+		// the id of a transaction that a previous incarnation of the server issued (and saw end): a client
+		// that kept its handle across the restart. For the new server it is an unknown transaction.
+		id = w.staleIDs[w.step/2%len(w.staleIDs)]
+		w.Stats["stale-id-from-before-restart"]++
+	}
 	return fs_db.CreateTx(w.DB, ghostOps{w, id}, func(ctx context.Context) context.Context {
 		if w.ext != nil {
 			return w.ext.txCtx(ctx, id)
@@ -1191,6 +1204,14 @@ func (w *World) apply(i int, op Op) bool {
 		if !readBackOpen() {
 			return false
 		}
+		if w.Cont != nil && op.Len%4 == 1 {
+			// the collector runs while the files are open: whatever it removes, it is not what is being written
+			if err := w.GC(); err != nil {
+				w.R.Failf("%s: collector run while files are open failed: %v", what, err)
+				return false
+			}
+			w.Stats["collector-while-files-open"]++
+		}
 		for j := range fs {
 			of := fs[j]
 			if op.Len%2 == 0 {
@@ -1236,10 +1257,36 @@ func (w *World) apply(i int, op Op) bool {
 		}
 		w.Stats["gc"]++
 	case "nop":
+	case "foreignin":
+		// somebody drops a file of their own into one of the content directories (C17 counts ENTRIES of a
+		// directory, whoever made them); it has to stay, and the directory's limit still holds
+		t := WalkRoots(w.Cfg.Storage.RootDirs, false)
+		var dirs []string
+		for d, n := range t.Dirs {
+			if n+1 < w.effLimit() && len(w.foreignIn) < 3 {
+				dirs = append(dirs, d)
+			}
+		}
+		sort.Strings(dirs)
+		if len(dirs) > 0 {
+			k := op.Key
+			if k < 0 {
+				k = -k
+			}
+			p := filepath.Join(dirs[k%len(dirs)], fmt.Sprintf("notes-%d.txt", len(w.foreignIn)))
+			if err := os.WriteFile(p, []byte(foreignText), 0o644); err == nil {
+				w.foreignIn = append(w.foreignIn, p)
+				w.Stats["foreign-entry-in-content-dir"]++
+			}
+		}
 	case "otherdb":
 		// another, unrelated database is opened, written and closed by the same process in the middle of
 		// the history ("whatever other database instances the same process has opened before or meanwhile")
-		for _, c := range openOthers(1, filepath.Dir(w.Dir)) {
+		share := ""
+		if w.Case.ShareRoot {
+			share = w.Cfg.Storage.RootDirs[0]
+		}
+		for _, c := range openOthers(1, filepath.Dir(w.Dir), share) {
 			c()
 		}
 		w.Stats["otherdb"]++
